@@ -171,7 +171,8 @@ def ob_token(chk, ir):
     chk.sample({'obligation': 'token-endpoint', 'paths': len(paths), 'mints': out['mints']})
 
 
-def ob_authorize(chk, ir):
+def ob_authorize(chk, ir, sp_login=False):
+    """sp_login=True (used by C20): paths are followed past the mint to the redirect, and the service-provider login event is checked"""
     t = time.time(); name = f'(*{M}.RuntimeState).idpOpenIDCAuthorizationHandler'
     if name not in ir.funcs: chk.obligation('authorization', '-', 'inconclusive', 'ANCHOR-LOST ' + name); return
     H, issuer = common(ir); ex = H.ex
@@ -212,9 +213,32 @@ def ob_authorize(chk, ir):
         for cname, cc in conj:
             r_, m = ex_.model_fresh(s.pc, z3.Not(cc), 30000)
             if r_ == 'sat': viol(f'authorization/{cname}', f'authorization code minted although: not ({cname})', m)
-        raise PathCut('sink stop')
+        if not sp_login: raise PathCut('sink stop')
     ex.on_mint = on_mint
+    if sp_login: H.stub_pat(r'eventnotifier\.EventNotifier\)\.Publish(\w+)$', sweep.st_publish_any)
     paths = ex.run(name, [state, w, r], st)
+    if sp_login:
+        n = 0; verdict = 'holds'
+        for p in paths:
+            if p.status != 'returned' or not p.evs('mint') or not p.evs('redirect'): continue
+            n += 1; adm = p.evs('admitted')
+            first = min(p.events.index(e) for e in p.evs('redirect'))
+            pubs = [e for e in p.evs('publish') if 'ServiceProviderLogin' in str(e['kind']) and p.events.index(e) < first]
+            form = lambda k: z3.If(z3.Bool(f'*r.Form["{k}"].present'), z3.String(f'*r.Form["{k}"][0]'), SV(''))
+            if not pubs:
+                if chk.violation('sp-logins-reported', 'idpOpenIDCAuthorizationHandler/not-reported', 'an authorization code is handed to a service provider without a service-provider login event', None) == 'new': verdict = 'violated'
+                continue
+            a_ = pubs[-1].get('args') or []
+            ok_ = len(a_) >= 2 and adm and ex.check(p.pc, z3.Or(a_[1] != adm[-1]['user'], a_[0] != form('redirect_uri')))[0] == 'unsat'
+            if not ok_:
+                if chk.violation('sp-logins-reported', 'idpOpenIDCAuthorizationHandler/wrong-event', 'the service-provider login event does not name the logged-in user and the redirect URL the code is sent to', None) == 'new': verdict = 'violated'
+        chk.absorb(ex, paths)
+        bad = [p for p in paths if p.status in ('unsupported', 'unwind')]
+        if bad: chk.obligation('sp-logins-reported', '-', 'inconclusive', bad[0].result); return
+        if n == 0: chk.obligation('sp-logins-reported', '-', 'inconclusive', 'vacuous: no completed authorization'); return
+        chk.witnesses += n
+        chk.obligation('sp-logins-reported: every authorization code handed to a service provider is preceded by a service-provider login event naming the logged-in user and that redirect URL', '2 clients, all form values', verdict if out['verdict'] == 'holds' else out['verdict'], paths=len(paths), witness=f'{n} completed authorizations', t=time.time() - t)
+        return
     bad = [p for p in paths if p.status in ('unsupported', 'unwind')]
     chk.absorb(ex, paths)
     if bad: chk.obligation('authorization', '-', 'inconclusive', bad[0].result); return
